@@ -173,6 +173,38 @@ theorem chunk_invariant_dedup (h : Val → Nat) (combine : List Nat → Nat)
       (by rw [rowKey_length _ _ _ hx, rowKey_length _ _ _ hy]) e)
   simpa using this
 
+/-- decidable, table-local form of the collision assumption: on the rows of THIS table the key separates
+what the value tuples separate (Bool) -/
+def keyFaithful (kf : List Val → Nat) (fs : List String) (t : Table) : Bool :=
+  t.all (fun r => t.all (fun r' =>
+    match rowKey (fun vs => vs) fs r, rowKey (fun vs => vs) fs r' with
+    | some vs, some ws => kf vs != kf ws || vs == ws
+    | _, _ => true))
+
+/-- the same theorem for ANY key function under the table-local, checkable assumption (no global
+injectivity needed; see the `example` at the end for a concrete instance) -/
+theorem chunk_invariant_dedup_local (kf : List Val → Nat) (o : DedupOpts) (parts : List Table)
+    (hf : o.fields ≠ []) (hk : keyFaithful kf o.fields parts.flatten = true) :
+    runBatched (dedupProc kf o) parts = sem (.dedup o) parts.flatten := by
+  rw [chunk_invariant_dedup_code kf o parts hf]
+  simp only [sem, dedupSpec]
+  have hkey : (rowKey kf o.fields) = fun r => (rowKey (fun vs => vs) o.fields r).map kf := by
+    funext r; exact rowKey_map _ _ _
+  rw [hkey]
+  have := spec_congr kf (rowKey (fun vs => vs) o.fields) o parts.flatten [] (by
+    intro x y hx hy e
+    rcases hx with hx | ⟨r, hr, hx⟩
+    · exact absurd hx (by simp)
+    rcases hy with hy | ⟨r', hr', hy⟩
+    · exact absurd hy (by simp)
+    have h1 := (List.all_eq_true.mp ((List.all_eq_true.mp hk) r hr)) r' hr'
+    rw [hx, hy] at h1
+    simp only [Bool.or_eq_true, bne_iff_ne, ne_eq, beq_iff_eq] at h1
+    rcases h1 with h1 | h1
+    · exact absurd e h1
+    · exact h1)
+  simpa using this
+
 /-- The code BEFORE the repair combined the field hashes with XOR: for EVERY hash (1,2) and (2,1) collide … -/
 theorem dedup_key_counterexample_old (h : Val → Nat) :
     xorKeyOld h [.int 1, .int 2] = xorKeyOld h [.int 2, .int 1] := xorKeyOld_swap h _ _
@@ -288,9 +320,14 @@ theorem runChain_single (kf : List Val → Nat) (c : Cmd) (parts : List Table) :
 
 /-! ### non-vacuity -/
 
-/-- the assumptions are satisfiable: a collision-free value hash into lists-as-numbers is not needed for the
-statement; here: the digest assumption holds for a positional encoding of bounded hashes is NOT claimed —
-only that SOME pair (h, combine) on a finite value set separates the tuples used in the old counterexample -/
+/-- the table-local assumption is satisfiable, with duplicates and permuted tuples present, for a concrete
+(hash, digest) pair: value hash = the number itself, digest = decimal positional encoding -/
+example : keyFaithful (digestKey (fun v => match v with | .int i => i.toNat | _ => 0) (fun l => l.foldl (fun a x => 10 * a + x) 0))
+    ["a", "b"]
+    [[("a", .int 1), ("b", .int 2)], [("a", .int 2), ("b", .int 1)], [("a", .int 1), ("b", .int 2)], [("a", .int 1), ("b", .int 1)]] = true := by
+  simp [keyFaithful, rowKey, Row.get, List.lookup_cons, Val.isNull, digestKey]
+
+/-- … and it separates the pair the old key confused -/
 example : digestKey (fun v => match v with | .int i => i.toNat | _ => 0) (fun l => l.foldl (fun a x => 10 * a + x) 0)
     [.int 1, .int 2] ≠ digestKey (fun v => match v with | .int i => i.toNat | _ => 0) (fun l => l.foldl (fun a x => 10 * a + x) 0)
     [.int 2, .int 1] := by decide
